@@ -953,3 +953,164 @@ def program_c17(rnd):
         main.append(ImportWhole("broken") if rnd.random() < 0.5 else ImportSyms("broken", [("v", "bv")]))
     main.append(Print(Str("main end")))
     return {"main": Module(main), "mods": mods}
+
+
+# ======================================================================================================
+# C11: built-in collections, strings, iterators
+ERRCHAIN = ["IndexError", "KeyError", "TypeError", "ValueError", "PropertyError", "RuntimeError"]
+
+
+def classify(stmts, k):
+    """run stmts; print which documented error class came out"""
+    catches = [Catch(f"e{k}_{i}", c, Block([Print(Str(f"#{k} {c}"))])) for i, c in enumerate(ERRCHAIN)]
+    catches.append(Catch(f"e{k}_x", None, Block([Print(Str(f"#{k} other error"))])))
+    return Try(Block(stmts), catches)
+
+
+def program_c11(rnd):
+    import copy
+    mod = []
+    k = [0]
+
+    def nk():
+        k[0] += 1
+        return k[0]
+
+    ELEMS = [Num(1), Num(2), Str("a"), Nil(), Num(3), Str("b")]
+
+    def elem():
+        return copy.deepcopy(rnd.choice(ELEMS))
+
+    def idx(n):
+        c = rnd.random()
+        if c < 0.7:
+            return Num(rnd.randint(-n - 1, n + 1))
+        if c < 0.8:
+            return Bin("/", Num(1), Num(2))
+        if c < 0.9:
+            return Str("x")
+        return Nil()
+
+    # ---- lists
+    for _ in range(rnd.randint(1, 3)):
+        n = rnd.randint(0, 4)
+        l = f"l{nk()}"
+        mod.append(Let(l, List([elem() for _ in range(n)])))
+        cur = n
+        for _ in range(rnd.randint(1, 5)):
+            op = rnd.choice(["push", "pop", "insert", "remove", "get", "set", "has", "index", "slice", "rev", "clear", "len", "push3"])
+            j = nk()
+            L = Var(l)
+            if op == "push": e = Invoke(L, "push", [elem()])
+            elif op == "push3": e = Invoke(L, "push", [elem(), elem(), elem()])
+            elif op == "pop": e = Invoke(L, "pop", [])
+            elif op == "insert": e = Invoke(L, "insert", [idx(cur), elem()])
+            elif op == "remove": e = Invoke(L, "remove", [idx(cur)])
+            elif op == "get": e = Index(L, idx(cur))
+            elif op == "set": e = IndexSet(L, idx(cur), elem())
+            elif op == "has": e = Invoke(L, "has", [elem()])
+            elif op == "index": e = Invoke(L, "index", [elem()])
+            elif op == "slice": e = Invoke(L, "slice", [idx(cur) for _ in range(rnd.randint(0, 2))])
+            elif op == "rev": e = Invoke(L, "rev", [])
+            elif op == "clear": e = Invoke(L, "clear", [])
+            else: e = Invoke(L, "len", [])
+            mod.append(classify([Print(Str(f"#{j} {op}"), e)], j))
+            mod.append(Print(Str(f"#{j} now"), Var(l), Invoke(Var(l), "len", [])))
+            cur = max(0, cur + {"push": 1, "push3": 3, "pop": -1, "insert": 1, "remove": -1, "clear": -99}.get(op, 0))
+    # ---- tuples
+    if rnd.random() < 0.6:
+        n = rnd.randint(2, 4)
+        t = f"t{nk()}"
+        mod.append(Let(t, Tuple([elem() for _ in range(n)])))
+        for _ in range(rnd.randint(1, 3)):
+            j = nk()
+            op = rnd.choice(["get", "has", "index", "slice", "len", "str"])
+            T = Var(t)
+            e = {"get": Index(T, idx(n)), "has": Invoke(T, "has", [elem()]), "index": Invoke(T, "index", [elem()]),
+                 "slice": Invoke(T, "slice", [idx(n) for _ in range(rnd.randint(0, 2))]), "len": Invoke(T, "len", []), "str": Invoke(T, "str", [])}[op]
+            mod.append(classify([Print(Str(f"#{j} t.{op}"), e)], j))
+    # ---- maps
+    if rnd.random() < 0.7:
+        m = f"m{nk()}"
+        KEYS = [Num(1), Str("a"), Num(0), Bool(True), Nil(), Str("b")]
+        n = rnd.randint(0, 2)
+        # distinct keys: which entry of a literal with a repeated key survives is not part of C11's
+        # finite-map model (the VM inserts the pairs last to first)
+        mod.append(Let(m, MapLit([(copy.deepcopy(k), elem()) for k in rnd.sample(KEYS, min(n, len(KEYS)))])))
+        for _ in range(rnd.randint(2, 6)):
+            j = nk()
+            op = rnd.choice(["get", "iget", "set", "iset", "has", "insert", "remove", "len"])
+            M = Var(m)
+            key = copy.deepcopy(rnd.choice(KEYS))
+            e = {"get": Invoke(M, "get", [key]), "iget": Index(M, key), "set": Invoke(M, "set", [key, elem()]), "iset": IndexSet(M, key, elem()),
+                 "has": Invoke(M, "has", [key]), "insert": Invoke(M, "insert", [key, elem()]), "remove": Invoke(M, "remove", [key]),
+                 "len": Invoke(M, "len", [])}[op]
+            mod.append(classify([Print(Str(f"#{j} m.{op}"), e, Invoke(Var(m), "len", []))], j))
+    # ---- strings
+    for _ in range(rnd.randint(1, 2)):
+        base = rnd.choice(["", "a", "ab", "aé", "日本", "a b", " ab ", "a,b,,c", "AbC"])
+        s = f"s{nk()}"
+        mod.append(Let(s, Str(base)))
+        n = len(base)
+        for _ in range(rnd.randint(2, 5)):
+            j = nk()
+            op = rnd.choice(["len", "get", "slice", "has", "split", "up", "down", "trim", "trimStart", "trimEnd", "iter"])
+            S_ = Var(s)
+            e = {"len": Invoke(S_, "len", []), "get": Index(S_, idx(n)), "slice": Invoke(S_, "slice", [idx(n) for _ in range(rnd.randint(0, 2))]),
+                 "has": Invoke(S_, "has", [Str(rnd.choice(["a", "b", "é", "", "ab", "本"]))]),
+                 "split": Invoke(Invoke(S_, "split", [Str(rnd.choice([",", " ", "b", "ab"]))]), "list", []),
+                 "up": Invoke(S_, "upCase", []), "down": Invoke(S_, "downCase", []), "trim": Invoke(S_, "trim", []),
+                 "trimStart": Invoke(S_, "trimStart", []), "trimEnd": Invoke(S_, "trimEnd", []),
+                 "iter": Invoke(Invoke(S_, "iter", []), "list", [])}[op]
+            mod.append(classify([Print(Str(f"#{j} s.{op}"), List([e]))], j))
+    # ---- iterator pipelines
+    mod.append(Let("seen", List([])))
+    for _ in range(rnd.randint(2, 5)):
+        j = nk()
+        srcs = [Invoke(List([Num(1), Num(2), Num(3), Num(4)]), "iter", []), Invoke(Num(rnd.randint(0, 5)), "times", []),
+                Invoke(Str("abc"), "iter", []), Invoke(Str("x,y,z"), "split", [Str(",")]), Invoke(List([]), "iter", []),
+                Invoke(Tuple([Num(5), Num(6)]), "iter", [])]
+        numeric = rnd.random() < 0.7
+        it = copy.deepcopy(srcs[rnd.choice([0, 1, 4, 5])] if numeric else rnd.choice(srcs))
+
+        def cb(kind):
+            x = f"x{nk()}"
+            if kind == "id": return Lambda([x], Var(x))
+            if kind == "inc": return Lambda([x], Bin("+", Var(x), Num(1)))
+            if kind == "big": return Lambda([x], Bin(">", Var(x), Num(1)))
+            if kind == "log": return Lambda([x], Block([Print(Str(f"#{j} cb"), Var(x)), Return(Var(x))]))
+            if kind == "logbig": return Lambda([x], Block([Print(Str(f"#{j} test"), Var(x)), Return(Bin(">", Var(x), Num(1)))]))
+            if kind == "raise": return Lambda([x], Block([If(Bin("==", Var(x), Num(2)), Block([Raise(Call(Var("ValueError"), [Str("cb")]))])), Return(Var(x))]))
+            if kind == "mut": return Lambda([x], Block([ExprSt(Invoke(Var("seen"), "push", [Var(x)])), Return(Var(x))]))
+            return Lambda([x], Var(x))
+
+        for _ in range(rnd.randint(0, 3)):
+            a = rnd.choice(["map", "filter", "take", "skip", "zip", "chain"])
+            if a == "map": it = Invoke(it, "map", [cb(rnd.choice(["id", "inc", "log", "raise", "mut"] if numeric else ["id", "log", "mut"]))])
+            elif a == "filter": it = Invoke(it, "filter", [cb(rnd.choice(["big", "logbig"] if numeric else ["id", "log"]))])
+            elif a == "take": it = Invoke(it, "take", [Num(rnd.choice([0, 1, 2, 5]))])
+            elif a == "skip": it = Invoke(it, "skip", [Num(rnd.choice([0, 1, 2, 5]))])
+            elif a == "zip": it = Invoke(it, "zip", [Invoke(List([Str("p"), Str("q"), Str("r")]), "iter", [])])
+            else: it = Invoke(it, "chain", [Invoke(List([Num(7), Num(8)]), "iter", [])])
+        c = rnd.choice(["list", "into", "reduce", "each", "all", "any", "first", "last", "for", "next"])
+        if c == "list": e = [Print(Str(f"#{j} list"), Invoke(it, "list", []))]
+        elif c == "into": e = [Print(Str(f"#{j} into"), Invoke(it, "into", [Prop(Var("List"), "collect")]))]
+        elif c == "reduce":
+            a, b = f"a{nk()}", f"b{nk()}"
+            e = [Print(Str(f"#{j} reduce"), Invoke(it, "reduce", [List([]), Lambda([a, b], Block([ExprSt(Invoke(Var(a), "push", [Var(b)])), Return(Var(a))]))]))]
+        elif c == "each": e = [Print(Str(f"#{j} each"), Invoke(it, "each", [cb("log")]))]
+        elif c == "all": e = [Print(Str(f"#{j} all"), Invoke(it, "all", [cb("logbig" if numeric else "log")]))]
+        elif c == "any": e = [Print(Str(f"#{j} any"), Invoke(it, "any", [cb("logbig" if numeric else "log")]))]
+        elif c == "first": e = [Print(Str(f"#{j} first"), Invoke(it, "first", []))]
+        elif c == "last": e = [Print(Str(f"#{j} last"), Invoke(it, "last", []))]
+        elif c == "next":
+            v = f"it{nk()}"
+            # current is only defined after a next that returned true
+            step = lambda: Tern(Invoke(Var(v), "next", []), Invoke(Var(v), "current", []), Str("end"))
+            e = [Let(v, it), Print(Str(f"#{j} next"), step(), step(), step())]
+        else:
+            v = f"v{nk()}"
+            e = [For(v, it, Block([Print(Str(f"#{j} for"), Var(v)), If(Bin("==", Var(v), Num(3)), Block([Break()]))]))]
+        mod.append(classify(e, j))
+    mod.append(Print(Str("seen"), Var("seen")))
+    return Module(mod)
